@@ -174,7 +174,9 @@ class CaseRunner:
         return 'nonfunctional_symbol'
 
     def unsupported_heads(self, st):
-        return sorted({self.head_class(v) for v in st.sigma.values()} - {'supported'})
+        """head classes of the values the toolkit does not document as supported, in the order of the substitution
+        (functional assumptions are generated value by value in that order, so the first one is the one that is refused)"""
+        return [h for h in (self.head_class(v) for v in st.sigma.values()) if h != 'supported']
 
     # ------------------------------------------------------------------- (ii) conversion of rules
     def convert_definition(self):
